@@ -37,6 +37,10 @@ import (
 //	kind   header corruption (see valKinds); size: declared payload size; chunks: streamed chunk lengths
 //	unprep 1 = unprepared object (the node will slice and sign); fail: the J-th downstream Write fails (0 never)
 //	quota  hard quota left in bytes (0 = unlimited); max: maximum payload size
+//
+// ops authseq (one validator with the real shared session-token cache over a sequence of objects) and entry (three real
+// put services: PUT, local-only PUT, forwarded PUT, Replicate with system objects of valid / invalid content) are in
+// eng_validate_entry.go.
 func init() {
 	engines["validate"] = seqRunner{gen: valGen, exec: valExec}.engine()
 }
@@ -223,7 +227,15 @@ func valExec(c *runCtx, ops []string) {
 	for _, line := range ops {
 		o := parseOp(line)
 		c.count(o.name)
-		if o.name != "stream" {
+		switch o.name {
+		case "stream":
+		case "authseq":
+			valAuthSeq(c, line, o)
+			continue
+		case "entry":
+			valEntry(c, line, o)
+			continue
+		default:
 			c.emit(line, "=> bad-op")
 			continue
 		}
@@ -319,8 +331,15 @@ func valExec(c *runCtx, ops []string) {
 	}
 }
 
+func ptrSig(scheme neofscrypto.Scheme, pub, val []byte) *neofscrypto.Signature {
+	s := neofscrypto.NewSignatureFromRawKey(scheme, pub, val)
+	return &s
+}
+
 func valGen(c *runCtx, run func([]string)) {
 	var ops []string
+	ops = append(ops, valGenAuth(c)...)
+	ops = append(ops, valGenEntry(c)...)
 	chunkings := func(total int) [][]int {
 		out := [][]int{{total}}
 		if total > 1 {
